@@ -68,8 +68,10 @@ def rule_E3(tree: Tree) -> RuleResult:
                             nm = (dotted(c.func) or "").split(".")[-1]
                             if nm.endswith("Block") or nm.endswith("BlockLE"):
                                 used.add(nm[:-2] if nm.endswith("LE") else nm)
-                r.ob(used == {KIND[const]}, Finding("E3", f"dpkt_dsb:{f.qualname}:block-class:{const}",
-                                                   f"{f.qualname}: blocks of type {const} must be parsed with {KIND[const]}[LE], found {sorted(used)}", m.line(n)))
+                by_order = any(isinstance(x, ast.IfExp) and _is_le_flag(x.test) for st in n.body for x in ast.walk(st))
+                r.ob(used == {KIND[const]} and by_order, Finding("E3", f"dpkt_dsb:{f.qualname}:block-class:{const}",
+                                                   f"{f.qualname}: blocks of type {const} must be parsed with {KIND[const]}LE / {KIND[const]} selected by the section's byte order; "
+                                                   f"found {sorted(used)}, selected by byte order: {by_order}", m.line(n)))
     # section header arms
     init = cls.methods.get("__init__")
     if init is None:
